@@ -173,6 +173,11 @@ class C03(Prop):
 
             try:
                 if len(clients) == 1:
+                    if r.random() < 0.3:
+                        async def slow_gate(conn, idx, frame):
+                            if r.random() < 0.25:
+                                await self._slow_reply(acc)
+                        self.dev.gate = slow_gate
                     await run_client(0)
                 else:
                     await self._interleave(r, clients, run_client, choice_log, acc)
@@ -183,6 +188,19 @@ class C03(Prop):
         acc.count(f"clock_mode_{clock_mode}")
         self._judge(acc, case, clients, records, world, choice_log)
 
+    async def _slow_reply(self, acc):
+        """The device takes its time: the event loop's clock jumps 30 s ahead (virtual delay, no real waiting) and the loop
+        gets a few turns, so that any timer the client armed around its read has fired before the reply is sent."""
+        loop = asyncio.get_running_loop()
+        if not hasattr(loop, "_vf_offset"):
+            loop._vf_offset = 0.0
+            real = loop.time
+            loop.time = lambda: real() + loop._vf_offset
+        loop._vf_offset += 30.0
+        for _ in range(4):
+            await asyncio.sleep(0)
+        acc.count("replies_delayed_30s_virtual")
+
     async def _interleave(self, r, clients, run_client, choice_log, acc):
         pending = {}  # conn id -> Event
 
@@ -190,6 +208,8 @@ class C03(Prop):
             ev = asyncio.Event()
             pending[conn.id] = ev
             await ev.wait()
+            if r.random() < 0.15:
+                await self._slow_reply(acc)
 
         self.dev.gate = gate
         tasks = [asyncio.ensure_future(run_client(i)) for i in range(len(clients))]
@@ -250,9 +270,10 @@ class C03(Prop):
                 if first != want_login:
                     acc.violation("login-frame-wrong", f"{tag}: first frame is not this instance's login: {frames.diff(first, want_login)}",
                                   {"op": op, "got": first.hex(), "want": want_login.hex()})
-                if ts0 != int(round(t_start)):
-                    acc.violation("login-timestamp-not-current", f"{tag}: login carries ts {ts0}, clock read {t_start} at call time",
-                                  {"op": op, "ts": ts0, "clock": t_start})
+                # the operation starts one loop turn after the call: another instance's write may tick the clock in between
+                if not (int(round(t_start)) <= ts0 <= int(round(t_end))):
+                    acc.violation("login-timestamp-not-current", f"{tag}: login carries ts {ts0}, the clock read {t_start} when the operation was called "
+                                  f"and {t_end} when it came back", {"op": op, "ts": ts0, "clock": [t_start, t_end]})
                 nlogins = sum(1 for w in rec.writes if frames.classify(w) in ("login", "login2"))
                 if nlogins != 1 or len(issued) != 1:
                     acc.violation("login-count", f"{tag}: {nlogins} login frames written, {len(issued)} sessions issued",
